@@ -115,6 +115,15 @@ func (o *oracle) onUpload(inst *Instance, inc int, st *Store, key string, p *pen
 		// tiles are also uploaded by recovery, from a bundle that may have been
 		// tampered with.
 		o.recordIntended(key, p.data)
+		if inst.state == stRunning {
+			inst.staged = stagedMembers(p.data)
+		}
+	} else if inst.state == stRunning && inst.staged != nil && strings.HasPrefix(key, "tile/") {
+		// a round uploads the tiles it staged, from memory: whatever happens to the
+		// bundle object meanwhile cannot change them (C08)
+		if want, ok := inst.staged[key]; ok && !bytes.Equal(want, p.data) {
+			o.v("C08", "uploaded-other-than-staged", "i%d.%d uploads %s with other bytes than the staging bundle its round built holds for that key", inst.idx, inc, key)
+		}
 	}
 	if cur, ok := st.objs[key]; ok && cur.Opts.Immutable {
 		if bytes.Equal(cur.Data, p.data) {
